@@ -54,7 +54,9 @@ def random_value(rng, name, cur):
     if name == "azimuth_in_degrees":
         return [0., 20., 135.5, np.float64(25.5), np.arange(0, 180, 15)[3]][int(rng.integers(0, 5))]      # numpy scalars (double / int64) are numbers too
     if name == "azimuths_in_degrees":
-        return [np.arange(0, 180, 30.), [0., 45., 90.], (10., 100.), np.array([5, 50, 95]), np.array([22.5, 67.5, 112.5]), [0.5, 45.25]][int(rng.integers(0, 6))]
+        # any order, repeated values allowed: each entry only has to lie in [0, 180]
+        return [np.arange(0, 180, 30.), [0., 45., 90.], (10., 100.), np.array([5, 50, 95]), np.array([22.5, 67.5, 112.5]), [0.5, 45.25],
+                [0., 90., 45., 135.], np.array([120., 60., 0.]), [0., 60., 120., 60.], (170., 10.)][int(rng.integers(0, 10))]
     if name == "ppth_percentile_for_rotdpp_computation":
         return [0., 50., 84., 100., np.int64(50), np.float64(84.)][int(rng.integers(0, 6))]
     if name == "instrument_transfer_function":
